@@ -25,7 +25,7 @@ func init() {
 	c := eng.Register(&eng.Check{
 		ID:          "C20",
 		Title:       "A runner behaves like a plain map of data plus a separate key-value store",
-		Rule:        "operation menu of 36 (SetThis with nil / fresh maps / the same map again, SetThisValue, Resolve of formulas that read and assign locals and fields, that fail in three different ways, and that read keys beginning with underscores, Set, Get); one operation repeated 25 000 (quick) / 120 000 (thorough) times after four prefixes, followed by every read: every history up to depth d is replayed on a fresh real runner in lock-step with a plain-map reference model (no state merging); then breadth-first to depth 5 (quick) / 7 (thorough) with merging on the canonical observed state, where a state reached a second way must answer every probe like the first; after every step all caller-visible maps must equal the model's; distinct = distinct canonical states",
+		Rule:        "operation menu of 38 (SetThis with nil / fresh maps / the same map again, SetThisValue, Resolve of formulas that read and assign locals and fields, that fail in three different ways, and that read keys beginning with underscores, Set, Get); one operation repeated 25 000 (quick) / 120 000 (thorough) times after four prefixes, followed by every read: every history up to depth d is replayed on a fresh real runner in lock-step with a plain-map reference model (no state merging); then breadth-first to depth 5 (quick) / 7 (thorough) with merging on the canonical observed state, where a state reached a second way must answer every probe like the first; after every step all caller-visible maps must equal the model's; distinct = distinct canonical states",
 		TrustedBase: []string{"plain-map model of the runner in checks/c20.go"},
 		Assumptions: []string{"merging drops caller maps the runner no longer references; leaks into them are covered by the unmerged exploration"},
 		Run:         runC20,
@@ -79,6 +79,7 @@ var c20OpNames = []string{
 	"Resolve($a = 2.75)", "Resolve(len(left('abcdef', $a ?? 1)))",
 	"Resolve(regexp('a','(')) fails", "Resolve(missing!.a1.a2...a100) fails", "Resolve(x(1)) fails",
 	"Resolve(__t)", "SetThisValue(__t,3)", "SetThis(fresh {__t:4,___u:5})", "Resolve([__t, this.___u, ___u, this.__t])",
+	"Resolve($e = [])", "Resolve([$e, $a])",
 }
 
 var c20DeepChain = func() string {
@@ -91,7 +92,7 @@ var c20DeepChain = func() string {
 
 var c20Formulas = map[int]string{9: "x", 10: "$a", 11: "$a = x", 12: "$a = 2", 13: "$b = $a", 14: "[$a,$b,x]", 15: "this.x", 16: "this",
 	22: "$a = 7 / 3", 23: "($a ?? 1) * 3", 24: "$a = 9007199254740993", 25: "($a ?? 0) - 9007199254740992", 26: "$a = ($b = 2)", 27: "$a = 2.75", 28: "len(left('abcdef', $a ?? 1))",
-	29: "regexp('a','(')", 30: c20DeepChain, 31: "x(1)", 32: "__t", 35: "[__t, this.___u, ___u, this.__t]"}
+	29: "regexp('a','(')", 30: c20DeepChain, 31: "x(1)", 32: "__t", 35: "[__t, this.___u, ___u, this.__t]", 36: "$e = []", 37: "[$e, $a]"}
 
 // exact values behind the canonical strings of the model (numbers only)
 var c20Decs = map[string]ref.Dec{}
@@ -238,7 +239,7 @@ func (w *c20World) apply(op int) *eng.Fail {
 		w.ensure()["__t"] = canonImpl(3.0)
 	case op == 34:
 		fresh(map[string]interface{}{"__t": 4.0, "___u": 5.0})
-	case op >= 9 && op <= 16, op >= 22 && op <= 28, op == 32, op == 35:
+	case op >= 9 && op <= 16, op >= 22 && op <= 28, op == 32, op == 35, op == 36, op == 37:
 		src := c20Formulas[op]
 		p, err := cachedParse(src)
 		if err != nil {
@@ -322,6 +323,11 @@ func (w *c20World) apply(op int) *eng.Fail {
 				k = n.Int64()
 			}
 			want = c20Canon(ref.FromInt64(k))
+		case 36:
+			want = "[]"
+			w.ensure()["$e"] = want
+		case 37:
+			want = "[" + get(m, "$e") + "," + get(m, "$a") + "]"
 		case 32:
 			want = get(m, "__t")
 		case 35:
